@@ -279,7 +279,7 @@ func (vm *simVM) spawn(inc *incarnation, uuid string, now time.Time) *simProc {
 	p := &simProc{pid: len(vm.procs) + 1, uuid: uuid, vm: vm, live: true, lockHeld: true, started: now, byInc: inc.n}
 	p.startLag = s.lat("proc-start-lag", 300*time.Millisecond, 20*time.Millisecond, 3*time.Second, 30*time.Second, 150*time.Second)
 	p.runDur = s.lat("proc-run", 2*time.Second, 200*time.Millisecond, 10*time.Second, 40*time.Second, 300*time.Second, 900*time.Second)
-	if s.spec.Tier != "thorough" && len(s.api.uuids) > 12 && p.runDur > 40*time.Second {
+	if !s.long && len(s.api.uuids) > 12 && p.runDur > 40*time.Second {
 		p.runDur = 40 * time.Second // many containers: keep the quick tier's runs short
 	}
 	if s.o.prop == "C15" && len(s.api.uuids)+s.toArrive > 6 {
